@@ -76,14 +76,16 @@ class Decoder24b(Decoder):
     
     
         # Order RGB bytes and discard Alpha channel
-        dataMix = bytearray(w*3 * h)
         w4 = w*4
         w3 = w*3
         w2 = w*2
         w1 = w
+        # BMP rows are padded to a multiple of 4 bytes
+        stride = (w3 + 3) // 4 * 4
+        dataMix = bytearray(stride * h)
         for y in range(0, h):
             yw4 = y*w4
-            yw3 = y*w3
+            yw3 = y*stride
             for x in range(0, w):
                 sr = yw4 + w3 + x
                 dr = yw3 + x*3 + 0
